@@ -107,3 +107,116 @@ Proof.
     cbn [option_map then_charge]. change (set_pc (pc s + 4) (set_opc (pc s + 2) s1)) with (set_opc (pc s + 2) (with_pc (pc s + 4) s1)). rewrite Hcs. unfold finish.
     cbn [fault set_opc with_pc set_pc]. rewrite (bit_mem_ref_fault _ _ _ _ _ E), Hf. reflexivity.
 Qed.
+
+(* ------------------------------------------------------------------ @aa:8 (prefix 7Eaa / 7Faa) *)
+From K Require Import Proofs.DecodeProofsBitEF.
+
+(* the operation-code map for @aa:8 bit instructions *)
+Lemma dec_bit_mem_target ro t w o b t' len :
+  dec_bit_mem ro t w = Some (IBit o b t', len) ->
+  t' = t /\ len = 4 /\ forall t2, dec_bit_mem ro t2 w = Some (IBit o b t2, 4).
+Proof.
+  unfold dec_bit_mem, req, ok. cbv zeta.
+  split_ifs; intros H; try discriminate H; inversion H; subst; repeat split; reflexivity.
+Qed.
+
+Lemma decode_7e w0 w1 w2 w3 w4 : hib w0 = 0x7e -> decode_ref w0 w1 w2 w3 w4 = dec_bit_mem true (BTMem (EAbs (abs8 (lob w0)))) w1.
+Proof.
+  intros Hh. unfold decode_ref. cbv zeta. rewrite Hh.
+  cbn [Z.eqb Pos.eqb Z.leb Z.compare Pos.compare Pos.compare_cont andb orb CompOpp]. reflexivity.
+Qed.
+Lemma decode_7f w0 w1 w2 w3 w4 : hib w0 = 0x7f -> decode_ref w0 w1 w2 w3 w4 = dec_bit_mem false (BTMem (EAbs (abs8 (lob w0)))) w1.
+Proof.
+  intros Hh. unfold decode_ref. cbv zeta. rewrite Hh.
+  cbn [Z.eqb Pos.eqb Z.leb Z.compare Pos.compare Pos.compare_cont andb orb CompOpp]. reflexivity.
+Qed.
+
+Lemma bit_abs_prefix w0 w1 w2 w3 w4 o b a len :
+  decode_ref w0 w1 w2 w3 w4 = Some (IBit o b (BTMem (EAbs a)), len) ->
+  hib w0 = 0x7e \/ hib w0 = 0x7f.
+Proof.
+  unfold decode_ref, dec_mov_mem, dec_unary, dec_imm_group, dec_bit_mem, req, ok. cbv zeta.
+  split_ifs; intros H; try discriminate H; try (exfalso; clear -H; inversion H; fail); lia.
+Qed.
+
+Definition bit_prefix_ok (w : Z) : bool :=
+  if (hib w =? 0x7e) || (hib w =? 0x7f) then match select1 w with TBitPrefix => true | _ => false end else true.
+Lemma bit_prefix_sweep : forallb bit_prefix_ok (zrange 65536) = true.
+Proof. vm_compute. reflexivity. Qed.
+
+Lemma hi8_hib w : 0 <= w -> hi8 w = hib w.
+Proof. intros H. unfold hi8, hib. rewrite shiftr_div by lia. reflexivity. Qed.
+
+Lemma select_bit_hi w0 w0' w1 : hi8 w0 = hi8 w0' -> select_bit w0 w1 = select_bit w0' w1.
+Proof. intros H. unfold select_bit. rewrite H. reflexivity. Qed.
+
+Theorem step_bit_abs_proof s w0 w1 w2 w3 w4 o b a n s' :
+  cpu_ok s -> bus_bytes_ok s -> fault s = false -> pc s mod 2 = 0 -> 0 <= pc s -> pc s + 4 < 4294967296 ->
+  mem_read SW s (pc s) = Some w0 -> mem_read SW s (pc s + 2) = Some w1 ->
+  decode_ref w0 w1 w2 w3 w4 = Some (IBit o b (BTMem (EAbs a)), 4) ->
+  sem_ref (IBit o b (BTMem (EAbs a))) 4 s = Some s' ->
+  bit_charge o a (set_opc (pc s + 2) s') = Ok n (set_opc (pc s + 2) s') ->
+  step s = Ok n (set_opc (pc s + 2) s').
+Proof.
+  intros Hok Hb Hf Hev H0 H1 Hw Hw1 Hd Hsem Hcs.
+  pose proof (word_range s _ _ Hb Hw) as Rw0. pose proof (word_range s _ _ Hb Hw1) as Rw1.
+  pose proof (bit_abs_prefix _ _ _ _ _ _ _ _ _ Hd) as Hpre.
+  (* facts from the sample sweep at 7E00 / 7F00 and the structure of the map *)
+  assert (Hfacts : a = abs8 (lo8 w0) /\ agree (select_bit w0 w1) (hib w0 * 256) w1 (IBit o b (BTMem (EAbs (abs8 0)))) = true).
+  { destruct Hpre as [Hh | Hh].
+    - rewrite (decode_7e _ _ _ _ _ Hh) in Hd. destruct (dec_bit_mem_target _ _ _ _ _ _ _ Hd) as (Et & _ & Hall).
+      injection Et as ->. rewrite lob_lo8 by lia. split; [reflexivity|].
+      assert (Hd0 : decode_ref 0x7e00 w1 0 0 0 = Some (IBit o b (BTMem (EAbs (abs8 0))), 4)).
+      { rewrite (decode_7e 0x7e00) by reflexivity. change (lob 0x7e00) with 0. apply Hall. }
+      pose proof bit_sweep_EF as S. rewrite forallb_forall in S.
+      assert (Hin : In 0x7e00 prefix_bit_EF) by (unfold prefix_bit_EF; cbn; auto).
+      pose proof (forallb_zrange _ 65536 (S _ Hin) w1 Rw1) as A. unfold agree2 in A. rewrite Hd0 in A.
+      rewrite Hh. change (0x7e * 256) with 0x7e00.
+      rewrite (select_bit_hi w0 0x7e00 w1) by (rewrite hi8_hib by lia; rewrite Hh; reflexivity). exact A.
+    - rewrite (decode_7f _ _ _ _ _ Hh) in Hd. destruct (dec_bit_mem_target _ _ _ _ _ _ _ Hd) as (Et & _ & Hall).
+      injection Et as ->. rewrite lob_lo8 by lia. split; [reflexivity|].
+      assert (Hd0 : decode_ref 0x7f00 w1 0 0 0 = Some (IBit o b (BTMem (EAbs (abs8 0))), 4)).
+      { rewrite (decode_7f 0x7f00) by reflexivity. change (lob 0x7f00) with 0. apply Hall. }
+      pose proof bit_sweep_EF as S. rewrite forallb_forall in S.
+      assert (Hin : In 0x7f00 prefix_bit_EF) by (unfold prefix_bit_EF; cbn; auto 10).
+      pose proof (forallb_zrange _ 65536 (S _ Hin) w1 Rw1) as A. unfold agree2 in A. rewrite Hd0 in A.
+      rewrite Hh. change (0x7f * 256) with 0x7f00.
+      rewrite (select_bit_hi w0 0x7f00 w1) by (rewrite hi8_hib by lia; rewrite Hh; reflexivity). exact A. }
+  destruct Hfacts as [Ea Hag].
+  assert (Hsel : select1 w0 = TBitPrefix).
+  { pose proof (forallb_zrange _ 65536 bit_prefix_sweep w0 Rw0) as P. unfold bit_prefix_ok in P.
+    replace ((hib w0 =? 0x7e) || (hib w0 =? 0x7f)) with true in P by (destruct Hpre as [-> | ->]; reflexivity).
+    destruct (select1 w0); try discriminate P. reflexivity. }
+  pose proof (lo8_range w0) as Rl.
+  unfold step. rewrite (fetch_word s w0) by (try assumption; lia). fold (post_fetch s).
+  unfold exec. rewrite Hsel. unfold bind at 1.
+  rewrite (fetch_word (post_fetch s) w1) by (try assumption; unfold post_fetch; cbn [pc set_pc set_opc]; try lia; exact Hw1).
+  unfold post_fetch. cbn [pc set_pc set_opc]. replace (pc s + 2 + 2) with (pc s + 4) by lia.
+  change (set_pc (pc s + 4) (set_opc (pc s + 2) (set_pc (pc s + 2) (set_opc (pc s) s)))) with (post_fetch2 s).
+  fold (finish (run_tag (select_bit w0 w1) w0 w1 0 (post_fetch2 s))).
+  rewrite bit_mem_ref_sem in Hsem. cbn [ea_addr] in Hsem.
+  destruct b as [k|rn].
+  - destruct (select_bit w0 w1) eqn:Es; try (simpl in Hag; discriminate Hag).
+    cbn [agree] in Hag. repeat (apply andb_true_iff in Hag; destruct Hag as [Hag ?]). apply bop_eqb_eq in Hag. subst o0.
+    assert (Ek : k = Z.land (nib w1 3) 7) by lia.
+    pose proof (bit_abs_refines_proof o w0 w1 false (post_fetch2 s) Hok Hb Rl) as Hh. cbv zeta in Hh.
+    rewrite Hh. clear Hh. rewrite <- Ek, <- Ea.
+    rewrite bit_mem_ref_pf2.
+    destruct (bit_mem_ref o a k s) as [s1|] eqn:E; cbn [option_map] in Hsem; [|discriminate Hsem].
+    (apply (f_equal (fun x => match x with Some y => y | None => s' end)) in Hsem; cbv beta iota in Hsem; subst s').
+    cbn [option_map then_charge]. change (set_pc (pc s + 4) (set_opc (pc s + 2) s1)) with (set_opc (pc s + 2) (with_pc (pc s + 4) s1)).
+    rewrite Hcs. unfold finish.
+    cbn [fault set_opc with_pc set_pc]. rewrite (bit_mem_ref_fault _ _ _ _ _ E), Hf. reflexivity.
+  - destruct (select_bit w0 w1) eqn:Es; try (simpl in Hag; discriminate Hag).
+    cbn [agree] in Hag. repeat (apply andb_true_iff in Hag; destruct Hag as [Hag ?]). apply bop_eqb_eq in Hag. subst o0.
+    assert (Ek : rn = nib w1 3) by lia.
+    pose proof (bit_abs_refines_proof o w0 w1 true (post_fetch2 s) Hok Hb Rl) as Hh. cbv zeta in Hh.
+    rewrite Hh. clear Hh. rewrite <- Ek, <- Ea.
+    change (reg8 (post_fetch2 s) rn) with (reg8 s rn).
+    rewrite bit_mem_ref_pf2.
+    destruct (bit_mem_ref o a (reg8 s rn mod 8) s) as [s1|] eqn:E; cbn [option_map] in Hsem; [|discriminate Hsem].
+    (apply (f_equal (fun x => match x with Some y => y | None => s' end)) in Hsem; cbv beta iota in Hsem; subst s').
+    cbn [option_map then_charge]. change (set_pc (pc s + 4) (set_opc (pc s + 2) s1)) with (set_opc (pc s + 2) (with_pc (pc s + 4) s1)).
+    rewrite Hcs. unfold finish.
+    cbn [fault set_opc with_pc set_pc]. rewrite (bit_mem_ref_fault _ _ _ _ _ E), Hf. reflexivity.
+Qed.
